@@ -13,6 +13,9 @@ from ..core import AnalysisError, finish, unparse
 from ..dataflow import Flow, chain, call_name
 from ..ordtype import evaluate_all, Ordering
 from ..poly import Poly, le, lt, eq
+from ..pathstate import Paths, Client
+from ..terms import Terms, plain, show, subterms, mk_cmp, is_none, stores, \
+    method_calls, owner_views, SITES
 from ..util import calls_in, qual, formals, has_fact, raises_of, raise_name, \
     returns_of
 
@@ -94,262 +97,21 @@ def r1_helpers(program, rep):
     rep.assume("alignments are >= 1")
 
 
-def _loop_chain(node, fn):
-    out = []
-    n = getattr(node, "_parent", None)
-    while n is not None and n is not fn:
-        if isinstance(n, (ast.For, ast.While)):
-            out.append(n)
-        n = getattr(n, "_parent", None)
-    return out
-
-
-def r2_r3(program, rep):
-    fn = program.get(FN)
-    inst = qual(fn)
-    fl = Flow(fn)
-    cfg = fl.cfg
-    ps = formals(fn)
-    machine = ps[2]
-    # the commit: <alloc>[resource] = <proposal>
-    slice_defs = [d for d in fl.defs if d.mode == "assign" and
-                  isinstance(d.value, ast.Call) and
-                  call_name(d.value)[0] == "slice"]
-    if len(slice_defs) != 1:
-        raise AnalysisError("allocate: expected one slice(...) proposal")
-    pdef = slice_defs[0]
-    prop = pdef.var
-    commits = [n for n in ast.walk(fn) if isinstance(n, ast.Assign) and
-               isinstance(n.targets[0], ast.Subscript) and
-               chain(n.value) == prop]
-    if len(commits) != 1:
-        raise AnalysisError("allocate: expected one commit of the proposal")
-    commit = commits[0]
-    cnode = cfg.node_of(commit)
-    res = chain(commit.targets[0].slice)
-    loops = _loop_chain(commit, fn)
-    # loops (innermost first): resource loop, vertex loop, chip loop
-    if len(loops) < 3:
-        raise AnalysisError("allocate: loop nest changed")
-    res_loop, vert_loop, chip_loop = loops[0], loops[1], loops[2]
-    xy = chain(chip_loop.target.elts[0]) if isinstance(
-        chip_loop.target, ast.Tuple) else None
-    req = chain(res_loop.target.elts[1]) if isinstance(
-        res_loop.target, ast.Tuple) else None
-    rep.check(isinstance(res_loop.target, ast.Tuple) and
-              chain(res_loop.target.elts[0]) == res and xy is not None,
-              "C05-R2", inst, "the allocation is filed under the resource "
-              "being iterated, on the chip being iterated",
-              construct="commit key", node=commit)
-    # the proposal reaching the commit is the single slice(...) definition
-    reach = fl.reaching(prop, cnode)
-    only = [d for d in reach if d.mode == "assign" and
-            not (isinstance(d.value, ast.Constant) and d.value.value is None)]
-    rep.check(len(only) == 1 and only[0] is pdef, "C05-R2", inst,
-              "the range stored is the proposal computed in the last "
-              "iteration of the retry loop",
-              construct="commit stores last proposal", node=commit)
-    # exact size, aligned start
-    pn = pdef.node
-    a0, a1 = pdef.value.args[:2] if len(pdef.value.args) >= 2 else (None,
-                                                                    None)
-    s0 = fl.sym(a0, pn)
-    s1 = fl.sym(a1, pn)
-    rep.check(s1 - s0 == fl.symvar(req, pn), "C05-R2", inst,
-              "proposal = slice(start, start + requirement): exactly the "
-              "requested size", construct="proposal size %r" % (s1 - s0,),
-              node=pdef.value,
-              fail="the proposed range has size %r, not the vertex's "
-                   "requirement" % (s1 - s0,))
-    sd = fl.reaching(chain(a0), pn) if chain(a0) else []
-    ok_al = False
-    ptr = None
-    if len(sd) == 1 and isinstance(sd[0].value, ast.Call) and \
-            call_name(sd[0].value)[0] == "align" and \
-            len(sd[0].value.args) == 2:
-        p_, al_ = sd[0].value.args
-        if isinstance(p_, ast.Subscript) and isinstance(al_, ast.Subscript):
-            ptr = chain(p_.value)
-            ok_al = chain(p_.slice) == res and chain(al_.slice) == res
-    rep.check(ok_al, "C05-R2", inst, "start = align(pointer[resource], "
-              "alignment[resource]) of the same resource",
-              construct="proposal start aligned", node=pdef.value,
-              fail="the proposal's start is not align(pointer[resource], "
-                   "alignments[resource]): an allocation may start off the "
-                   "required alignment")
-    # the retry loop and its flag
-    wl = None
-    n = pdef.node.ast
-    while n is not None and n is not fn:
-        if isinstance(n, ast.While):
-            wl = n
-            break
-        n = getattr(n, "_parent", None)
-    if wl is None or chain(wl.test) is None:
-        raise AnalysisError("allocate: retry loop is no longer 'while "
-                            "<flag>'")
-    flag = chain(wl.test)
-    rep.check(has_fact(fl.facts(cnode), flag, False), "C05-R2", inst,
-              "the proposal is committed only after the retry loop exits "
-              "with the overlap flag false", construct="commit after clean "
-              "exit", node=commit)
-    # every write of the flag inside the loop
-    resets = []
-    for d in fl.defs:
-        if d.var != flag or not _inside(d.node.ast, wl):
-            continue
-        v = d.value
-        if isinstance(v, ast.Constant) and v.value is False:
-            resets.append(d)
-            okp = cfg.dominates(pdef.node, d.node) and \
-                not cfg.reaches(d.node, pdef.node, avoid=[
-                    cfg.loop_head[id(wl)]])
-            rep.check(okp, "C05-R2", inst, "the flag is cleared after the "
-                      "proposal of this iteration is made",
-                      construct="flag reset order", node=d.node.ast)
-        elif isinstance(v, ast.Constant) and v.value is True:
-            f = fl.facts(d.node)
-            okt = any(isinstance(c, ast.Call) and
-                      call_name(c)[0] == "slices_overlap" and p
-                      for c, p, _ in f)
-            rep.check(okt, "C05-R2", inst, "the flag is raised under a "
-                      "slices_overlap(...) test", construct="flag raise",
-                      node=d.node.ast)
-        else:
-            rep.bad("C05-R2", inst, "flag overwritten: %s" % unparse(
-                d.node.ast)[:50], "the overlap flag is assigned %s inside "
-                "the retry loop: an overlap found earlier in the same "
-                "iteration can be forgotten" % unparse(v), d.node.ast)
-    rep.check(len(resets) == 1, "C05-R2", inst, "the flag is cleared exactly "
-              "once per iteration", construct="flag resets %d" % len(resets),
-              node=wl)
-    # each overlap test: about the proposal, raises the flag on its true
-    # branch before the loop continues, and moves the pointer past it
-    tests = [c for c in calls_in(wl, "slices_overlap")]
-    sources = []
-    for c in tests:
-        okc = len(c.args) == 2 and chain(c.args[0]) == prop
-        tnode = None
-        for n_ in cfg.nodes:
-            if n_.kind == "assume" and n_.polarity and n_.ast is c:
-                tnode = n_
-        raised = False
-        moved = False
-        if tnode is not None:
-            fl_loop = _enclosing_for(c, wl)
-            targets = [cfg.loop_head[id(fl_loop)]] if fl_loop is not None \
-                else [cfg.loop_head[id(wl)]]
-            sets = [d.node for d in fl.defs if d.var == flag and
-                    isinstance(d.value, ast.Constant) and
-                    d.value.value is True]
-            raised = cfg.must_pass(tnode, lambda n: n in sets,
-                                   targets=targets + [cfg.exit])
-            rv = chain(c.args[1])
-            for d in fl.defs:
-                if d.var == ptr and d.mode == "mut" and \
-                        cfg.reaches(tnode, d.node) and \
-                        isinstance(d.node.ast, ast.Assign):
-                    st = d.node.ast
-                    if chain(st.targets[0].slice) == res and \
-                            unparse(st.value) == "%s.stop" % rv and \
-                            _inside(st, fl_loop or wl):
-                        moved = cfg.must_pass(tnode, lambda n: n is d.node,
-                                              targets=targets + [cfg.exit])
-            if fl_loop is not None:
-                sources.append((fl_loop, c))
-        rep.check(okc and raised, "C05-R2", inst,
-                  "whenever slices_overlap(proposal, reservation) holds the "
-                  "flag is raised before the scan continues",
-                  construct="overlap raises flag", node=c,
-                  fail="an overlap between the proposal and a reservation "
-                       "does not always raise the retry flag")
-        rep.check(moved, "C05-R3", inst, "a blocking reservation moves the "
-                  "pointer of that resource to the reservation's end",
-                  construct="pointer skips reservation", node=c)
-    # both reservation sources
-    glob = loc = False
-    for lp, c in sources:
-        it = lp.iter
-        if isinstance(it, ast.Subscript) and chain(it.slice) == res:
-            src = chain(it.value)
-            glob = glob or _filled_under(fl, fn, src, True)
-        else:
-            # local: a name defined from  L.get(xy, ..).get(resource, ..) or
-            # L[xy][resource]
-            e = it
-            if chain(it) is not None:
-                ds = fl.reaching(chain(it), cfg.loop_head[id(lp)])
-                if len(ds) == 1 and ds[0].mode == "assign":
-                    e = ds[0].value
-            keys, base = _peel(e)
-            if keys == [xy, res] and base is not None:
-                loc = loc or _filled_under(fl, fn, base, False)
-    rep.check(glob, "C05-R2", inst, "the proposal is tested against every "
-              "globally reserved range of the resource",
-              construct="global reservations consulted", node=wl)
-    rep.check(loc, "C05-R2", inst, "the proposal is tested against every "
-              "range reserved for this chip and resource",
-              construct="local reservations consulted", node=wl)
-    # the bound test
-    okb = False
-    for r in raises_of(fn):
-        if raise_name(r) != "InsufficientResourceError":
-            continue
-        rn = cfg.node_of(r)
-        for cond, pol, a in fl.facts(rn):
-            if pol and isinstance(cond, ast.Compare) and len(cond.ops) == 1 \
-                    and isinstance(cond.ops[0], ast.Gt) and \
-                    unparse(cond.left) == "%s.stop" % prop and \
-                    unparse(cond.comparators[0]) == "%s[%s][%s]" % (
-                        machine, xy, res):
-                # the committed proposal passed the test: the loop can only
-                # exit with the flag false, the flag is only cleared by the
-                # reset of the same iteration, and every path from that reset
-                # to the loop test passes the negated bound test
-                neg = [n_ for n_ in cfg.nodes if n_.kind == "assume" and
-                       n_.ast is cond and not n_.polarity]
-                okb = bool(neg) and bool(resets) and all(
-                    cfg.must_pass(d.node, lambda n: n in neg,
-                                  targets=[cfg.loop_head[id(wl)], cfg.exit])
-                    for d in resets)
-    rep.check(okb, "C05-R2", inst, "a proposal ending beyond machine[xy]"
-              "[resource] (the chip's own quantity, exceptions included) "
-              "raises InsufficientResourceError; the committed one passed "
-              "that test", construct="capacity bound", node=wl,
-              fail="the committed range is not checked against machine[%s]"
-                   "[%s]: on a chip with a resource exception the range can "
-                   "leave the chip's resource" % (xy, res))
-    # R3 bump pointer
-    bump = False
-    for d in fl.defs:
-        if d.var == ptr and d.mode == "mut" and isinstance(
-                d.node.ast, ast.Assign):
-            st = d.node.ast
-            if chain(st.targets[0].slice) == res and \
-                    unparse(st.value) == "%s.stop" % prop and \
-                    cfg.dominates(cnode, d.node) and not _inside(st, wl):
-                bump = cfg.must_pass(cnode, lambda n: n is d.node,
-                                     targets=[cfg.loop_head[id(res_loop)],
-                                              cfg.exit])
-    rep.check(bump, "C05-R3", inst, "after a range is accepted the pointer "
-              "of that resource moves to its end (later ranges on the chip "
-              "start at or after it)", construct="pointer bump", node=commit)
-    pd = [d for d in fl.defs if d.var == ptr and d.mode == "assign"]
-    okp = len(pd) == 1 and _inside(pd[0].node.ast, chip_loop) and \
-        not _inside(pd[0].node.ast, vert_loop)
-    zero = False
-    if okp and isinstance(pd[0].value, ast.DictComp):
-        dc = pd[0].value
-        zero = isinstance(dc.value, ast.Constant) and dc.value.value == 0
-    rep.check(okp and zero, "C05-R3", inst, "pointers are re-created (at 0) "
-              "for every chip and shared by the vertices of that chip",
-              construct="pointer scope", node=chip_loop,
-              fail="the resource pointers are not re-initialised per chip "
-                   "(or are re-initialised per vertex): ranges of different "
-                   "vertices can coincide or run off the chip")
-    # the chip's vertices: grouping by placement
-    rep.floor("C05-R2", 12)
-    rep.floor("C05-R3", 3)
+def _kn(t):
+    """The term with call sites and attribute versions dropped but
+    allocation sites kept (two containers created by the same expression at
+    different places stay different)."""
+    if not isinstance(t, tuple):
+        return t
+    if t and t[0] == "new":
+        return ("new", t[1], _kn(t[2]))
+    if t and t[0] == "attrv":
+        return ("attr", _kn(t[1]), t[2])
+    if t and t[0] == "callv":
+        return ("call",) + tuple(_kn(x) for x in t[1:4])
+    if t and t[0] == "const":
+        return t
+    return tuple(_kn(x) for x in t)
 
 
 def _inside(node, anc):
@@ -361,59 +123,601 @@ def _inside(node, anc):
     return False
 
 
-def _enclosing_for(node, stop):
-    n = getattr(node, "_parent", None)
-    while n is not None and n is not stop:
-        if isinstance(n, ast.For):
-            return n
-        n = getattr(n, "_parent", None)
+def _entry(t):
+    """(container, key) of a mapping read d[k] / d.get(k[, default])."""
+    if t[0] == "item" and t[2][0] != "slice":
+        return t[1], t[2]
+    if t[0] == "get" and len(t) in (3, 4):
+        return t[1], t[2]
     return None
 
 
-def _peel(e):
-    """L.get(a, ..).get(b, ..) / L[a][b] -> ([a, b], 'L')."""
-    keys = []
-    while True:
-        if isinstance(e, ast.Call) and call_name(e)[0] == "get" and e.args:
-            keys.append(chain(e.args[0]))
-            e = call_name(e)[1]
-        elif isinstance(e, ast.Subscript):
-            keys.append(chain(e.slice))
-            e = e.value
-        else:
-            break
-    return list(reversed(keys)), chain(e)
+class _Model(object):
+    """The roles of allocate()'s values, read off its own data flow."""
+
+    def __init__(self, program, fn):
+        self.fn = fn
+        T = self.T = Terms(fn)
+        ps = formals(fn)
+        self.ps = ps
+        VR, MACHINE, CONS, PLACE = (("param", ps[0]), ("param", ps[2]),
+                                    ("param", ps[3]), ("param", ps[4]))
+        rets = [r for r in returns_of(fn) if r.value is not None]
+        if len(rets) != 1:
+            raise AnalysisError("allocate: expected one return")
+        self.A = A = _kn(T.term(rets[0].value))
+        if A[0] != "new":
+            raise AnalysisError("allocate: the map returned is not created "
+                                "here")
+        st = [(n, s_, _kn(b), _kn(k), _kn(v))
+              for n, s_, b, k, v in stores(T)]
+        self.stores = st
+        per_vertex = [x for x in st if x[2] == A]
+        if len(per_vertex) != 1:
+            raise AnalysisError("allocate: expected one store into the "
+                                "allocation map")
+        self.vstore = per_vertex[0]
+        VERTEX, X = per_vertex[0][3], per_vertex[0][4]
+        self.VERTEX = VERTEX
+        self.commits = [x for x in st if x[2] == X or
+                        x[2] == ("item", A, VERTEX)]
+        if not self.commits or X[0] != "new":
+            raise AnalysisError("allocate: the per-vertex map is not filled "
+                                "here")
+        self.X = X
+        RES = self.commits[0][3]
+        if not all(c[3] == RES for c in self.commits) or RES[0] != "comp" \
+                or RES[2] != 0:
+            raise AnalysisError("allocate: the key of the committed range")
+        self.RES = RES
+        E = RES[1]
+        self.REQ = ("comp", E, 1)
+        self.want_E = ("items", ("item", VR, VERTEX))
+        # chips and their vertices
+        if not (VERTEX[0] == "elem" and VERTEX[1][0] == "comp" and
+                VERTEX[1][2] == 1):
+            raise AnalysisError("allocate: the vertices of a chip")
+        Ecc = VERTEX[1][1]
+        self.Ecc = Ecc
+        self.XY = ("comp", Ecc, 0)
+        CC = Ecc[1][1] if Ecc[0] == "elem" and Ecc[1][0] == "items" else None
+        if CC is None or CC[0] != "new":
+            raise AnalysisError("allocate: the chip contents map")
+        self.CC = CC
+        self.CAP = ("item", ("item", MACHINE, self.XY), RES)
+        # the proposal
+        props = []
+        for b_ in T.binds:
+            if b_.mode != "assign":
+                continue
+            v = _kn(T._bind_term(b_))
+            if v[0] == "call" and v[1] == ("global", "slice") and \
+                    v not in props:
+                props.append(v)
+        if len(props) != 1:
+            raise AnalysisError("allocate: expected one slice(...) proposal")
+        self.P = props[0]
+        # reservation tables
+        Ec = ("elem", CONS)
+        self.G = self.L = None
+        self.stale = False
+        self.fill = []
+        for n, c, recv, args in method_calls(T, "append"):
+            recv, args = _kn(recv), [_kn(x) for x in args]
+            if args != [("attr", Ec, "reservation")]:
+                continue
+            f = [(plain(t), p_) for t, p_ in T.all_facts(n)]
+            isres = (("call", ("global", "isinstance"),
+                      (Ec, ("global", "ReserveResourceConstraint")), ()),
+                     True) in f
+            glob = (is_none(("attr", Ec, "location")), True) in f
+            loc = (is_none(("attr", Ec, "location")), False) in f
+            e1 = _entry(recv)
+            if e1 is None or not isres:
+                continue
+            if glob and e1[1] == ("attr", Ec, "resource") and \
+                    e1[0][0] == "new":
+                self.G = e1[0]
+                self.fill.append(("G", n))
+            e2 = _entry(e1[0])
+            if loc and e2 is not None and e1[1] == ("attr", Ec, "resource") \
+                    and e2[1] == ("attr", Ec, "location") and \
+                    e2[0][0] == "new":
+                self.L = e2[0]
+                self.fill.append(("L", n))
+
+    # -- which reservations an iterable ranges over --------------------------
+    def sources(self, t, node_ast=None):
+        """{'G','L'} for the reserved ranges of the current resource, globally
+        / of the current chip; 'stale' for a cache outliving what it was
+        computed from; None if not recognised."""
+        t = _kn(t)
+        e1 = _entry(t)
+        if e1 is not None:
+            if e1[0] == self.G and e1[1] == self.RES:
+                return frozenset("G")
+            e2 = _entry(e1[0])
+            if e2 is not None and e2[0] == self.L and e2[1] == self.XY and \
+                    e1[1] == self.RES:
+                return frozenset("L")
+            if e1[0][0] == "new":
+                return self._memo(e1[0], e1[1])
+        if t[0] == "binop" and t[1] == "Add":
+            a, b = self.sources(t[2]), self.sources(t[3])
+            if a is not None and b is not None:
+                return a | b
+        if t[0] == "call" and t[1] in (("global", "chain"),
+                                       ("global", "itertools.chain")) and \
+                not t[3]:
+            out = frozenset()
+            for x in t[2]:
+                a = self.sources(x)
+                if a is None:
+                    return a
+                out |= a
+            return out
+        if t[0] == "call" and t[1] in (("global", "list"),
+                                       ("global", "tuple")) and \
+                len(t[2]) == 1 and not t[3]:
+            return self.sources(t[2][0])
+        return None
+
+    def _memo(self, M, key):
+        """A table created in this function and read back under ``key``."""
+        ws = [x for x in self.stores if x[2] == M]
+        if len(ws) != 1 or ws[0][3] != key:
+            return None
+        v = ws[0][4]
+        parts = [v]
+        if v[0] == "binop" and v[1] == "Add":
+            parts = [v[2], v[3]]
+        elif v[0] == "call" and v[1][0] == "global" and \
+                v[1][1].rsplit(".", 1)[-1] == "chain":
+            parts = list(v[2])
+        out = frozenset()
+        for part in parts:
+            src = self._memo_part(M, key, ws[0], part)
+            if src is None:
+                return None
+            out |= src
+        return out
+
+    def _memo_part(self, M, key, w, value):
+        src = self.sources(value)
+        if src is None:
+            return src
+        site = SITES.get(M[1])
+        # the loops whose variables the stored value depends on (beyond the
+        # key) must each create the table afresh
+        for lp in ast.walk(self.fn):
+            if not isinstance(lp, ast.For) or not _inside(w[1], lp) or \
+                    id(lp) not in self.T.cfg.loop_head:
+                continue
+            head = self.T.cfg.loop_head[id(lp)]
+            el = _kn(self.T._tag(lp.iter, ("elem", self.T.term(lp.iter,
+                                                               head))))
+            uses = any(x == el for x in subterms(value))
+            # the key tells iterations apart only if it is the loop
+            # variable itself (or its dictionary key)
+            keys = key[1:] if key[0] == "tuple" else (key,)
+            in_key = any(x == el or (x == ("comp", el, 0) and
+                                     el[1][0] == "items") for x in keys)
+            if uses and not in_key and not _inside(site, lp):
+                self.stale = True
+                return frozenset()
+        return src
 
 
-def _filled_under(fl, fn, container, want_global):
-    """The container is appended constraint.reservation under
-    (constraint.location is None) == want_global, keyed by the constraint's
-    resource (and location for the local one)."""
-    for c in calls_in(fn, "append"):
-        recv = call_name(c)[1]
-        keys, base = _peel(recv)
-        if base != container or not c.args or \
-                not unparse(c.args[0]).endswith(".reservation"):
+class _Monitor(Client):
+    """State: have (a proposal was made), clean (no overlap test of it came
+    out true), covered (sources scanned completely for it), bounded, pending
+    / broken / hitcur (the scan in progress), owed = (committed, bumped):
+    the proposal was stored for the vertex / the pointer was moved to its
+    end."""
+
+    def __init__(self, model):
+        self.m = model
+        self.cache = {}
+        self.seen_tests = set()
+        self.problems = {}
+        self.n_commit_states = 0
+        self.unknown_ptr_store = []
+        self.unknown_tests = []
+
+    def start(self):
+        return (False, True, frozenset(), False, False, False, False,
+                (False, False))
+
+    def truth(self, tag):
+        return True if tag in ("P", "R", "R+") else None
+
+    def _info(self, view, n):
+        key = (id(view), n.id)
+        if key in self.cache:
+            return self.cache[key]
+        m = self.m
+        info = None
+        a = n.ast
+        try:
+            if n.kind == "stmt" and n.label == "foriter":
+                src = m.sources(view.term(a.value, n))
+                if src is not None:
+                    info = ("foriter", src)
+            elif n.kind == "join" and n.label in ("forbody", "forelse"):
+                head = view.cfg.loop_head[id(a)]
+                src = m.sources(view.term(a.iter, head))
+                if src is not None:
+                    info = (n.label, src)
+            elif n.kind == "iter":
+                src = m.sources(view.term(a.iter, n))
+                if src is not None:
+                    info = ("head", src)
+            elif n.kind == "assume":
+                t, p = view.cond(a, n, n.polarity)
+                t = _kn(t)
+                if False:
+                    pass
+                elif (t, p) == (mk_cmp("LtE", ("attr", m.P, "stop"), m.CAP),
+                                True):
+                    info = ("bounded",)
+            elif n.kind == "stmt" and isinstance(a, ast.Assign):
+                tg = a.targets[0]
+                if isinstance(tg, ast.Subscript) and len(a.targets) == 1:
+                    base = _kn(view.term(tg.value, n))
+                    key_ = _kn(view.term(tg.slice, n))
+                    if (base == m.X or base == ("item", m.A, m.VERTEX)):
+                        info = ("commit", key_, a.value)
+                    elif base == m.PTR:
+                        info = ("ptr", key_, a.value)
+                else:
+                    v = _kn(view.term(a.value, n))
+                    if v == m.P:
+                        info = ("propose",)
+                    elif v == m.PTR:
+                        info = ("newptr",)
+        except AnalysisError:
+            info = None
+        self.cache[key] = info
+        return info
+
+    def problem(self, kind, node, view):
+        self.problems.setdefault(kind, node)
+
+    def step(self, view, n, env, mon):
+        info = self._info(view, n)
+        if info is None:
+            return mon
+        have, clean, cov, bounded, pending, broken, hitcur, owed = mon
+        k = info[0]
+        if k == "propose":
+            if owed[0] and not owed[1]:
+                self.problem("owed", n, view)
+            return (True, True, frozenset(), False, False, False, False,
+                    (False, False))
+        if k == "newptr":
+            return (have, clean, cov, bounded, pending, broken, hitcur,
+                    (False, False))
+        if k == "foriter":
+            return (have, clean, cov, bounded, False, False, False, owed)
+        if k == "forbody":
+            return (have, clean, cov, bounded, True, broken, False, owed)
+        if k == "head":
+            if pending:
+                broken = True
+            return (have, clean, cov, bounded, False, broken, False, owed)
+        if k == "forelse":
+            if not broken:
+                cov = cov | info[1]
+            return (have, clean, cov, bounded, False, False, False, owed)
+        if k == "bounded":
+            return (have, clean, cov, True, pending, broken, hitcur, owed)
+        if k == "commit":
+            self.n_commit_states += 1
+            if info[1] != self.m.RES:
+                self.problem("key", n, view)
+            v = self._value(view, n, info[2], env)
+            if v != "P" or not have:
+                self.problem("value", n, view)
+            if not clean:
+                self.problem("dirty", n, view)
+            if "G" not in cov:
+                self.problem("global", n, view)
+            if "L" not in cov:
+                self.problem("local", n, view)
+            if not bounded:
+                self.problem("bound", n, view)
+            return (have, clean, cov, bounded, pending, broken, hitcur,
+                    (True, owed[1]))
+        if k == "ptr":
+            if info[1] != self.m.RES:
+                self.problem("ptrkey", n, view)
+            e = info[2]
+            ok = False
+            if isinstance(e, ast.Attribute) and e.attr == "stop":
+                v = self._value(view, n, e.value, env)
+                if v == "P":
+                    ok = True
+                    owed = (owed[0], True)
+                elif v == "R+" or (v == "R" and hitcur):
+                    ok = True
+            if not ok:
+                try:
+                    t = _kn(view.term(e, n))
+                except AnalysisError:
+                    t = None
+                if t == ("attr", self.m.P, "stop"):
+                    ok = True
+                    owed = (owed[0], True)
+                elif t is not None and t[0] == "const":
+                    self.problem("ptrconst", n, view)
+                    ok = True
+            if not ok:
+                self.unknown_ptr_store.append(n)
+            return (have, clean, cov, bounded, pending, broken, hitcur, owed)
+        return mon
+
+    def call_outcomes(self, view, n, c, env, mon):
+        if call_name(c)[0] != "slices_overlap" or len(c.args) != 2:
+            return None
+        key = (id(view), id(c))
+        if key not in self.cache:
+            info = None
+            try:
+                t = _kn(view.term(c, n))
+                if t[0] == "call" and len(t[2]) == 2 and not t[3]:
+                    x, r = t[2]
+                    src = self.m.sources(r[1]) if r[0] == "elem" else None
+                    if src is not None:
+                        info = (x == self.m.P,)
+            except AnalysisError:
+                info = None
+            self.cache[key] = info
+        info = self.cache[key]
+        if info is None:
+            self.unknown_tests.append(c)
+            return None
+        self.seen_tests.add(id(c))
+        if not info[0]:
+            # a test of something other than the current proposal says
+            # nothing about it
+            return set([("T", mon), ("F", mon)])
+        have, clean, cov, bounded, pending, broken, hitcur, owed = mon
+        return set([
+            ("T", (have, False, cov, bounded, False, broken, True, owed)),
+            ("F", (have, clean, cov, bounded, False, broken, hitcur, owed))])
+
+    def _value(self, view, n, e, env):
+        if isinstance(e, ast.Name) and env.get(e.id) is not None:
+            return env[e.id]
+        try:
+            t = _kn(view.term(e, n))
+        except AnalysisError:
+            return None
+        if t == self.m.P:
+            return "P"
+        return None
+
+    def tag(self, view, node, term, env, mon):
+        t = _kn(term)
+        if t == self.m.P:
+            return "P"
+        if t[0] == "elem":
+            src = self.m.sources(t[1])
+            if src is not None:
+                return "R"
+        return None
+
+    def adjust(self, view, node, expr, v, env, mon):
+        if v == "R" and mon[6]:
+            return "R+"
+        return v
+
+
+def r2_r3(program, rep):
+    fn = program.get(FN)
+    inst = qual(fn)
+    m = _Model(program, fn)
+    T = m.T
+    cfg = T.cfg
+    P, RES, REQ = m.P, m.RES, m.REQ
+    rep.check(RES[1] == ("elem", m.want_E) or
+              (RES[1][0] == "elem" and RES[1][1] == m.want_E),
+              "C05-R2", inst, "the allocation is filed under the resource "
+              "being iterated (a key of vertices_resources[vertex]) for the "
+              "vertex being iterated", construct="commit key",
+              node=m.commits[0][1])
+    # chips: vertices grouped by their placement
+    Epl = ("elem", ("items", ("param", m.ps[4])))
+    grouped = False
+    for n, c, recv, args in method_calls(T, "append"):
+        if _kn(recv) == ("item", m.CC, ("comp", Epl, 1)) and \
+                [_kn(x) for x in args] == [("comp", Epl, 0)] and \
+                not T.all_facts(n):
+            grouped = True
+    rep.check(grouped, "C05-R3", inst, "the vertices allocated together are "
+              "exactly those placed on the same chip",
+              construct="grouping by placement", node=fn)
+    # exact size, aligned start
+    S, E2 = P[2][0], P[2][1] if len(P[2]) == 2 else (None, None)
+    rep.check(len(P[2]) == 2 and not P[3] and
+              E2 in (("binop", "Add", S, REQ), ("binop", "Add", REQ, S)),
+              "C05-R2", inst, "proposal = slice(start, start + requirement): "
+              "exactly the requested size", construct="proposal size",
+              node=fn, fail="the proposed range is %s: not the vertex's "
+              "requirement long" % show(P)[:200])
+    ok_al = S is not None and S[0] == "call" and S[1][0] == "global" and \
+        S[1][1].rsplit(".", 1)[-1] == "align" and len(S[2]) == 2 and \
+        not S[3]
+    PTR = AL = None
+    if ok_al:
+        p_, a_ = _entry(S[2][0]), _entry(S[2][1])
+        ok_al = p_ is not None and a_ is not None and p_[1] == RES and \
+            a_[1] == RES and S[2][0][0] == "item"
+        if ok_al:
+            PTR, AL = p_[0], a_[0]
+    rep.check(ok_al, "C05-R2", inst, "start = align(pointer[resource], "
+              "alignment[resource]) of the same resource",
+              construct="proposal start aligned", node=fn,
+              fail="the proposal's start is not align(pointer[resource], "
+                   "alignments[resource]): an allocation may start off the "
+                   "required alignment")
+    if not ok_al:
+        return
+    m.PTR = PTR
+    Ec = ("elem", ("param", m.ps[3]))
+    okA = AL[0] == "new" and plain(AL) == (
+        "call", ("global", "defaultdict"), (("lambda", 0, ("const", 1)),),
+        ())
+    al_st = [x for x in m.stores if x[2] == AL]
+    okA = okA and len(al_st) == 1 and \
+        al_st[0][3] == ("attr", Ec, "resource") and \
+        al_st[0][4] == ("attr", Ec, "alignment") and \
+        (("call", ("global", "isinstance"),
+          (Ec, ("global", "AlignResourceConstraint")), ()), True) in [
+              (plain(t), p) for t, p in T.all_facts(al_st[0][0])]
+    rep.check(okA, "C05-R2", inst, "alignment[resource] is the alignment of "
+              "the AlignResourceConstraint of that resource (1 if none)",
+              construct="alignment table", node=fn)
+    rep.check(m.G is not None, "C05-R2", inst, "reservations without a "
+              "location are filed by resource in the global table",
+              construct="global reservations filed", node=fn)
+    rep.check(m.L is not None, "C05-R2", inst, "reservations with a "
+              "location are filed by location and resource",
+              construct="local reservations filed", node=fn)
+    if m.G is None or m.L is None:
+        return
+    # every ReserveResourceConstraint is filed
+    isres = [n for n in cfg.nodes if n.kind == "assume" and n.polarity and
+             plain(T.cond(n.ast, n, True)[0]) == (
+                 "call", ("global", "isinstance"),
+                 (Ec, ("global", "ReserveResourceConstraint")), ())]
+    fills = [n for _, n in m.fill]
+    heads = [h for h in cfg.loop_head.values()]
+    rep.check(bool(isres) and all(cfg.must_pass(
+        n, lambda x: x in fills, targets=heads + [cfg.exit]) for n in isres),
+        "C05-R2", inst, "every ReserveResourceConstraint is filed in one of "
+        "the two tables", construct="reservations all filed", node=fn)
+    # path-sensitive exploration
+    mon = _Monitor(m)
+    paths = Paths(T, mon)
+    orig_value = paths.value
+
+    def value(view, n, e, env, mo):
+        return mon.adjust(view, n, e, orig_value(view, n, e, env, mo), env,
+                          mo)
+    paths.value = value
+    paths.run(T, cfg.entry, {}, mon.start())
+    rep.note("PATHS: %d states explored, %d helper runs, %d commit states" %
+             (paths.count, paths.helper_runs, mon.n_commit_states))
+    if mon.n_commit_states == 0:
+        raise AnalysisError("allocate: no path reaches the commit")
+    # overlap tests in forms the monitor does not follow
+    if mon.unknown_tests and not m.stale:
+        raise AnalysisError("allocate: an overlap test in a form that is "
+                            "not analysed (line %d)" %
+                            mon.unknown_tests[0].lineno)
+    pr = mon.problems
+    cnode = m.commits[0][1]
+
+    def at(kind):
+        n = pr.get(kind)
+        return n.ast if n is not None and n.ast is not None else cnode
+    rep.check("key" not in pr and "ptrkey" not in pr, "C05-R2", inst,
+              "ranges and pointers are filed under the resource being "
+              "allocated", construct="keys", node=at("key"))
+    rep.check("value" not in pr, "C05-R2", inst, "the range stored is the "
+              "proposal computed in the last iteration of the retry loop",
+              construct="commit stores last proposal", node=at("value"),
+              fail="on some path the value stored for the vertex is not the "
+                   "last proposal made")
+    rep.check("dirty" not in pr, "C05-R2", inst, "on every path to the "
+              "commit, no overlap test of the committed proposal against a "
+              "reservation came out true (an overlap always leads to a new "
+              "proposal)", construct="commit after clean scan",
+              node=at("dirty"),
+              fail="a path reaches the commit although "
+                   "slices_overlap(proposal, reservation) held for the "
+                   "committed proposal: the range handed out overlaps a "
+                   "reserved range")
+    rep.check("global" not in pr and not m.stale, "C05-R2", inst,
+              "on every path to the commit the proposal was tested against "
+              "every globally reserved range of the resource",
+              construct="global reservations consulted", node=at("global"),
+              fail="a path reaches the commit without a complete scan of "
+                   "the global reservations of the resource for the "
+                   "committed proposal")
+    rep.check("local" not in pr and not m.stale, "C05-R2", inst,
+              "on every path to the commit the proposal was tested against "
+              "every range reserved for this chip and resource",
+              construct="local reservations consulted", node=at("local"),
+              fail="a path reaches the commit without a complete scan of "
+                   "the reservations of this chip and resource for the "
+                   "committed proposal%s" % (
+                       " (the reservation list is cached across chips)"
+                       if m.stale else ""))
+    rep.check("bound" not in pr, "C05-R2", inst, "a proposal ending beyond "
+              "machine[xy][resource] (the chip's own quantity, exceptions "
+              "included) never reaches the commit: proposal.stop <= "
+              "machine[xy][resource] was established for it",
+              construct="capacity bound", node=at("bound"),
+              fail="the committed range is not checked against "
+                   "machine[xy][resource]: on a chip with a resource "
+                   "exception the range can leave the chip's resource")
+    # the bound failure is the documented error
+    okr = False
+    for r in raises_of(fn):
+        if raise_name(r) != "InsufficientResourceError":
             continue
-        node = fl.cfg.node_containing(c)
-        f = fl.facts(node)
-        cname = unparse(c.args[0]).rsplit(".", 1)[0]
-        if want_global and keys == ["%s.resource" % cname] and \
-                _fact(f, "%s.location is None" % cname, True) and \
-                _fact(f, "isinstance(%s, ReserveResourceConstraint)" % cname,
-                      True):
-            return True
-        if not want_global and keys == ["%s.location" % cname,
-                                        "%s.resource" % cname] and \
-                _fact(f, "%s.location is None" % cname, False) and \
-                _fact(f, "isinstance(%s, ReserveResourceConstraint)" % cname,
-                      True):
-            return True
-    return False
-
-
-def _fact(facts, text, pol):
-    return any(unparse(c) == text and p == pol for c, p, _ in facts)
+        for view in owner_views(T, r):
+            f = [(_kn(t), p) for t, p in view.all_facts(
+                view.cfg.node_of(r))]
+            if (mk_cmp("Lt", m.CAP, ("attr", P, "stop")), True) in f:
+                okr = True
+    rep.check(okr, "C05-R2", inst, "running out of the chip's resource "
+              "raises InsufficientResourceError", construct="capacity error",
+              node=fn)
+    # R3: bump pointer
+    if mon.unknown_ptr_store:
+        raise AnalysisError("allocate: a pointer update in a form that is "
+                            "not analysed (line %d)" %
+                            mon.unknown_ptr_store[0].lineno)
+    rep.check("owed" not in pr and "ptrconst" not in pr, "C05-R3", inst,
+              "after a range is accepted the pointer of that resource moves "
+              "to its end before the next proposal on the chip; otherwise it "
+              "only moves to the end of a reservation overlapping the "
+              "current proposal (it never moves down)",
+              construct="pointer bump", node=at("owed"),
+              fail="a path makes the next proposal on a chip without having "
+                   "moved the pointer past the range just handed out: two "
+                   "vertices get the same range")
+    # pointers are per chip
+    own = [lp for lp in ast.walk(fn) if isinstance(lp, ast.For) and
+           id(lp) in cfg.loop_head]
+    chip_loops = [lp for lp in own if
+                  _kn(T._tag(lp.iter, ("elem", T.term(
+                      lp.iter, cfg.loop_head[id(lp)])))) == m.Ecc]
+    vert_loops = [lp for lp in own if
+                  _kn(T._tag(lp.iter, ("elem", T.term(
+                      lp.iter, cfg.loop_head[id(lp)])))) == m.VERTEX]
+    pd = [b_ for b_ in T.binds if b_.mode == "assign" and
+          _kn(T._bind_term(b_)) == PTR]
+    okp = len(pd) >= 1 and len(chip_loops) == 1 and len(vert_loops) == 1 and \
+        all(_inside(b_.node.ast, chip_loops[0]) and
+            not _inside(b_.node.ast, vert_loops[0]) for b_ in pd)
+    pp = plain(PTR)
+    zero = (pp[0] == "dictcomp" and pp[1][0] == "pair" and
+            pp[1][2] == ("const", 0)) or (
+        pp[0] == "call" and pp[1] == ("attr", ("global", "dict"),
+                                      "fromkeys") and
+        len(pp[2]) == 2 and pp[2][1] == ("const", 0))
+    rep.check(okp and zero, "C05-R3", inst, "pointers are re-created (at 0) "
+              "for every chip and shared by the vertices of that chip",
+              construct="pointer scope", node=fn,
+              fail="the resource pointers are not re-initialised per chip "
+                   "(or are re-initialised per vertex): ranges of different "
+                   "vertices can coincide or run off the chip")
+    rep.floor("C05-R2", 14)
+    rep.floor("C05-R3", 3)
 
 
 def r4_raises(program, rep):
